@@ -17,3 +17,5 @@ def run(prog, rep):
     r_flow.run_feature_dispatch(prog, rep, multi=True)
     r_pair.run_pairs(prog, rep)
     r_flow.run_forward(prog, rep, which=('MultiTag',))
+    from ..rules import r_view as _rv
+    _rv.run_indata(prog, rep)
